@@ -35,6 +35,11 @@ FrameTab == LET q == SetToSeq(LenSeqs) IN
                                  IN [pkts |-> ps, framed |-> FrameClient(ps), server |-> ps[1].ct \o ps[1].sig]]
 ASSUME \A ls \in LenSeqs : LET ps == [j \in 1..Len(ls) |-> Pkt(j, ls[j])] IN
            SplitClient(FrameClient(ps)) = ps /\ SplitServer(ps[1].ct \o ps[1].sig) = <<ps[1]>>
+\* the step law of de-framing: a stream is its first frame followed by a stream.  By induction on the number of frames this is
+\* SplitClient(FrameClient(ps)) = ps for streams of ANY length - the law behind the harness' streams of thousands of packets,
+\* which are too long to be handed to TLC.  (Here: every first packet of the table lengths in front of every table stream.)
+ASSUME \A n \in CtLens : \A ls \in LenSeqs : LET p == Pkt(7, n)  rest == FrameClient([j \in 1..Len(ls) |-> Pkt(j, ls[j])]) IN
+           SplitClient(Dumps(p) \o rest) = <<p>> \o SplitClient(rest) /\ SplitClient(Dumps(p)) = <<p>>
 ASSUME Mode = "table" => JsonSerialize(IOEnv.OUTF, [dec |-> DecTab, pad |-> PadTab, frame |-> FrameTab])
 
 \* ---- events recorded from the real code
